@@ -223,7 +223,13 @@ func isAlnum(b byte) bool {
 }
 func isB64ish(b byte) bool { return isAlnum(b) || b == '+' || b == '/' || b == '=' }
 
+var otherWords = map[string]bool{"": true, "~": true, "null": true, "Null": true, "NULL": true,
+	"true": true, "True": true, "TRUE": true, "false": true, "False": true, "FALSE": true}
+
 func plainModelled(s string) bool {
+	if otherWords[s] { // null and the booleans: neither an integer nor a string
+		return true
+	}
 	if len(s) >= 2 && s[0] == '0' && (s[1] == 'x' || s[1] == 'X') {
 		return allOf(s[2:], isAlnum)
 	}
